@@ -97,7 +97,7 @@ impl Sparse {
     }
     /// bytes [off, off+n) (holes read as zero); clipped to len
     pub fn read_range(&self, off: u64, n: usize) -> Vec<u8> {
-        let end = (off + n as u64).min(self.len);
+        let end = off.saturating_add(n as u64).min(self.len);
         if end <= off {
             return Vec::new();
         }
@@ -158,7 +158,7 @@ impl Read for Sparse {
     fn read(&mut self, buf: &mut [u8]) -> io::Result<usize> {
         let v = self.read_range(self.pos, buf.len());
         buf[..v.len()].copy_from_slice(&v);
-        self.pos += v.len() as u64;
+        self.pos = self.pos.saturating_add(v.len() as u64);
         Ok(v.len())
     }
 }
